@@ -383,7 +383,7 @@ struct Minimiser {
         };
         std::vector<Event> evs;
         for (auto e : q.events) {
-            if (e.op == OP_LOAD || e.op == OP_UNLOAD) {
+            if (e.op == OP_LOAD || e.op == OP_UNLOAD || e.op == OP_RECYCLE) {
                 map_list(e.recs);
                 if (e.recs.empty())
                     continue;
